@@ -167,34 +167,35 @@ TRACK_GROUP = ["crc_cycle", "CRC16Base_update", "CRC16Base_update_bit", "reverse
 
 
 def track_J(Job, cfg, name, entry, enforce, tier="quick", **kw):
+    kw.setdefault("solver", "portfolio")
     return Job("D_%s_%s" % (name, cfg[0]), "harness/dfs_track.c", entry, enforce=enforce, defines=list(cfg[1]),
                extract=ext(TRACK_GROUP), tier=tier, **kw)
 
 
 def crc_jobs(Job, cfg=CFG_NDEBUG, tier="quick"):
-    return [track_J(Job, cfg, "crc_cycle", "h_crc_cycle", ["crc_cycle"], tier),
-            track_J(Job, cfg, "crc_update_bit", "h_crc_update_bit", ["CRC16Base_update_bit"], tier, replace=["crc_cycle"]),
-            track_J(Job, cfg, "crc_update", "h_crc_update", ["CRC16Base_update"], tier, replace=["crc_cycle"], loops=True, pre_unwind="CRC16Base_update.1:9",
-                    cbmc=["--unwindset", "h_fill_crc.0:266", "--unwinding-assertions"])]
+    js = [track_J(Job, cfg, "crc_cycle", "h_crc_cycle", ["crc_cycle"], tier),
+          track_J(Job, cfg, "crc_update_bit", "h_crc_update_bit", ["CRC16Base_update_bit"], tier, replace=["crc_cycle"])]
+    # update(): loop contract against the prefix-CRC table; blocks of up to 24 bytes in the quick tier, up to the
+    # longest block the decoders pass (264 bytes) in the thorough tier (the table, not the loop, is what is bounded)
+    for n, t in ((24, tier), (264, "thorough")):
+        c2 = (cfg[0] + "_max%d" % n, list(cfg[1]) + ["CRC_MAXLEN=%d" % n])
+        js.append(track_J(Job, c2, "crc_update", "h_crc_update", ["CRC16Base_update"], t, replace=["crc_cycle"], loops=True,
+                          timeout=2400,
+                          cbmc=["--unwindset", "h_fill_crc.0:%d" % (n + 2), "--unwinding-assertions"]))
+    return js
 
 
 def bitstream_jobs(Job, cfg=CFG_NDEBUG, tier="quick"):
-    return [track_J(Job, cfg, "reverse_bit_order", "h_reverse", ["reverse_bit_order"], tier),
-            track_J(Job, cfg, "bitstream_raw_pos", "h_raw_pos", ["BitStream_raw_pos"], tier),
-            track_J(Job, cfg, "bitstream_rawbit", "h_rawbit", ["BitStream_rawbit"], tier),
-            track_J(Job, cfg, "bitstream_size", "h_size", ["BitStream_size"], tier),
-            track_J(Job, cfg, "bitstream_getbit", "h_getbit", ["BitStream_getbit"], tier, replace=["BitStream_raw_pos", "BitStream_rawbit"]),
-            track_J(Job, cfg, "mfm_read_byte", "h_mfm_read_byte", ["mfm_read_byte"], tier, replace=["BitStream_getbit", "BitStream_size"], cover=True,
-                    cbmc=["--unwindset", "mfm_read_byte_wrapped_for_contract_checking.0:9,mfm_read_byte.0:9", "--unwinding-assertions"])]
-
-
-def mmb_jobs(Job, cfg=CFG_NDEBUG, tier="quick"):
-    return [Job("D_mmb_ctor_%s" % cfg[0], "harness/dfs_mmb.c", "h_mmb", enforce=["MmbFile_ctor"], loops=True,
-                defines=list(cfg[1]), extract=ext(["sector_count", "MmbFile_ctor"]), tier=tier, cover=True)]
-
-
-def c04_extra(Job, tier):
-    return mmb_jobs(Job)
+    js = [track_J(Job, cfg, "reverse_bit_order", "h_reverse", ["reverse_bit_order"], tier)]
+    for stride in (1, 2):
+        c2 = (cfg[0] + "_stride%d" % stride, list(cfg[1]) + ["VERIF_STRIDE=%d" % stride])
+        js += [track_J(Job, c2, "bitstream_raw_pos", "h_raw_pos", ["BitStream_raw_pos"], tier),
+               track_J(Job, c2, "bitstream_rawbit", "h_rawbit", ["BitStream_rawbit"], tier),
+               track_J(Job, c2, "bitstream_size", "h_size", ["BitStream_size"], tier),
+               track_J(Job, c2, "bitstream_getbit", "h_getbit", ["BitStream_getbit"], tier, replace=["BitStream_raw_pos", "BitStream_rawbit"]),
+               track_J(Job, c2, "mfm_read_byte", "h_mfm_read_byte", ["mfm_read_byte"], "thorough", replace=["BitStream_getbit", "BitStream_size"], cover=True, timeout=3000,
+                       cbmc=["--unwindset", "mfm_read_byte_wrapped_for_contract_checking.0:9,mfm_read_byte.0:9", "--unwinding-assertions"])]
+    return js
 
 
 DFS_TRUSTED = [
